@@ -219,7 +219,8 @@ def run(prog, rep):
             if isinstance(t, Raw) and t.op == "write" and t.value is not None and any(isinstance(x, ast.Call) and isinstance(x.func, ast.Attribute) and x.func.attr == "encode" for x in ast.walk(t.value)):
                 rep.fail("str-call-sites", u.writer.module.path.name, u.writer.qualname, t.stmt or t.node,
                          "a text field is encoded and written without BTSString.write: nothing refuses over-long text or guarantees the NUL terminator, so it can spill into the next field")
-    rep.floor("str-call-sites/writers", n_w, 11)
+    # every decoded string field has an encoder site (a refactoring may merge duplicate writers, never drop below the readers)
+    rep.floor("str-call-sites/writers", n_w, max(n_r, 9))
     rep.floor("str-call-sites/readers", n_r, 9)
     rep.trusted += ["str.encode('windows-1252') in strict mode raises UnicodeEncodeError (a ValueError) for unencodable text",
                     "bytes concatenation / repetition semantics of CPython"]
